@@ -51,6 +51,9 @@ fn run_case(rec: &mut Rec, c: &Case) {
 }
 
 fn n_groups(ctx: &Ctx) -> u64 {
+  if let Some(g) = ctx.extra.get("groups") {
+    return g.parse().unwrap_or(8);
+  }
   ctx.n(480, 16000)
 }
 
@@ -61,10 +64,15 @@ fn worker(ctx: &Ctx, shard: u64, shards: u64, start_g: u64, start_k: u64, progre
   let total = n_groups(ctx);
   let mut g = shard;
   while g < total {
-    if g >= start_g {
+    let gmod_ok = ctx.extra.get("gmod").map(|m| g % 8 == m.parse::<u64>().unwrap_or(0)).unwrap_or(true);
+    let stride: u64 = ctx.extra.get("stride").and_then(|s| s.parse().ok()).unwrap_or(1);
+    if g >= start_g && gmod_ok {
       let cases = hostile::group(ctx, g);
       for (k, c) in cases.iter().enumerate() {
         if g == start_g && (k as u64) < start_k {
+          continue;
+        }
+        if stride > 1 && (k as u64 + g) % stride != 0 {
           continue;
         }
         if let Some(f) = &pf {
